@@ -85,6 +85,13 @@ def run(ctx):
             "R11.a", init_f, None,
             f"features are collected over `{a[0][0]}` but column names over `{b[0][0]}`: columns and names can fall out of step",
         )
+    elif len(a) == 2 and len(b) == 2 and a[0][0] == b[0][0] and a[1][0] != b[1][0]:
+        chk.violation(
+            "R11.a", cols, None,
+            f"the feature matrices are collected from `{a[1][0]}` but the column names are derived from `{b[1][0]}`: "
+            "the two need not agree (a nested composite reports a size of 1 per type but contributes several "
+            "columns), so names and columns fall out of step",
+        )
     elif a and a[0][0] != "self.feature_observers":
         chk.violation("R11.a", init_f, None, f"features are collected over `{a[0][0]}`, not over the component list in order")
     else:
